@@ -182,7 +182,9 @@ package corebgp
 //@   ensures [fault_present] err != nil ==> r == nil && 0 <= fpos && fpos < len(b) && !apOK(b, fpos, ipv6)
 //@   loop#0 invariant [suffix]  suffixOf(b, b0) && fresh(prefixes.arr)
 //@   loop#0 invariant [chain]   apChain(b0, offs, len(prefixes), offsetIn(b, b0))
-//@   loop#0 invariant [entries] forall k :: 0 <= k && k < len(prefixes) ==> apOK(b0, offs[k], ipv6) && prefixes[k].ID == be32(b0, offs[k]) && prefixes[k].Prefix == pfxAt(b0, offs[k] + 4, ipv6)
+//@   loop#0 invariant [entries] forall k :: 0 <= k && k < len(prefixes) ==> apOK(b0, offs[k], ipv6)
+//@   loop#0 invariant [entry_ids] forall k :: 0 <= k && k < len(prefixes) ==> prefixes[k].ID == be32(b0, offs[k])
+//@   loop#0 invariant [entry_prefixes] forall k :: 0 <= k && k < len(prefixes) ==> prefixes[k].Prefix == pfxAt(b0, offs[k] + 4, ipv6)
 //@   loop#0 decreases len(b)
 
 // The four NLRI / withdrawn-routes wrappers: the user closure is called exactly
